@@ -79,7 +79,9 @@ def llm_fn_for(path, version):
 
 
 # "param": ONE shipped rail flow configured twice with different parameters (content safety check input/output $model=...)
-RAILS = {"single": (("in1",), ("out1",)), "double": (("in1", "in2"), ("out1", "out2")), "param": (("in1", "in2"), ("out1", "out2"))}
+# "libjb": Colang 2.x, input rail = the shipped `jailbreak detection heuristics` flow (its action replaced by a stub)
+RAILS = {"single": (("in1",), ("out1",)), "double": (("in1", "in2"), ("out1", "out2")), "param": (("in1", "in2"), ("out1", "out2")),
+         "libjb": (("in1",), ("out1",))}
 _RAILSET = ["single"]
 _PATH = ["free"]
 
@@ -87,7 +89,7 @@ _PATH = ["free"]
 def build(version, dialog, exceptions):
     ins, outs = RAILS[_RAILSET[0]]
     if version == "2.x":
-        return rw.v2_world(in_order=ins, out_order=outs, dialog=False, exceptions=exceptions, main={"retry": V2_MAIN_RETRY, "say-result": V2_MAIN_SAY_RESULT}.get(_PATH[0], V2_MAIN_LOOKUP))
+        return rw.v2_world(in_order=ins, out_order=outs, dialog=False, exceptions=exceptions, library=("jailbreak" if _RAILSET[0] == "libjb" else False), main={"retry": V2_MAIN_RETRY, "say-result": V2_MAIN_SAY_RESULT}.get(_PATH[0], V2_MAIN_LOOKUP))
     return rw.v1_world(in_order=ins, out_order=outs, dialog=dialog, exceptions=exceptions, param_rails=("both" if _RAILSET[0] == "param" else False))
 
 
@@ -193,7 +195,10 @@ def explore(task):
                     info["fault_indices"] = list(second[1])
 
                 def bad(sig, what):
-                    if fresh:
+                    if _RAILSET[0] == "libjb":
+                        variant = "fresh-instance" if fresh else ("second-fault-after-a-hidden-turn" if second is not None else kind)
+                        res["viol"].append((f"{sig}:v2:shipped-jailbreak-heuristics-rail:{'+'.join(failed_sites) or 'none'}:{variant}", what, info))
+                    elif fresh:
                         res["viol"].append((f"{sig}:{'v2' if v2 else 'v1'}:fresh-instance-uncached-history", what, info))
                     elif second is not None:
                         res["viol"].append((f"{sig}:{'v2' if v2 else 'v1'}:{path}:second-fault-after-a-hidden-turn:{'+'.join(failed_sites) or 'none'}", what, info))
@@ -457,6 +462,7 @@ def tasks(tier):
         out.append(("2.x", False, exc, "free", turns, pairs, kinds))
         out.append(("2.x", False, exc, "retry", turns, False, ("raise",)))
         out.append(("2.x", False, exc, "say-result", turns, False, ("raise", "none")))
+        out.append(("2.x", False, exc, "free", turns, False, ("raise", "none"), "libjb"))
         # one shipped rail flow configured twice with different parameters (Colang 1.0)
         out.append(("1.0", False, exc, "general", turns, tier == "thorough", ("raise",), "param"))
         if tier == "thorough":
